@@ -404,7 +404,7 @@ def run(ctx):
     ctx.fingerprint(FILES)
     ctx.translate(["Z3"])
     ctx.build("C10_z3", deps=["Model/Z3Model.v"])   # the part's own statements, whatever property id runs it
-    n = 80 if quick else 800
+    n = 80 if quick else 500
     specs = [gen_spec(ctx.rng, ["mixed", "busy", "mixed", "odd", "single"][i % 5]) for i in range(n)]
     res = run_specs(ctx, specs, n_models=5 if quick else 8, n_rand=8 if quick else 16)
     ctx.rules.append(RULE + "; non-trivial = at least two offered tasks that can be placed on a common worker, or a partially "
